@@ -39,6 +39,15 @@ fn nearly_singular(ctx: &mut Ctx, n: usize) -> Vec<BigRat> {
     m
 }
 
+/// determinant non-zero but far below the approx tolerance (2^-52): `invert` must still return the exact inverse
+/// (the property says None *exactly* when the determinant is zero, not when it is ulps-close to zero)
+fn negligible_det(ctx: &mut Ctx, n: usize) -> Vec<BigRat> {
+    let mut m = singular(ctx, n);
+    let k = ctx.rng.below((n * n) as u64) as usize;
+    m[k] = m[k].add(&BigRat::new(crate::bigrat::BigInt::one(), crate::bigrat::BigInt::one().shl(70)));
+    m
+}
+
 pub fn cases(ctx: &mut Ctx) {
     for _ in 0..40 * ctx.scale {
         let g = ctx.generic(16);
@@ -56,7 +65,7 @@ pub fn cases(ctx: &mut Ctx) {
     }
     for _ in 0..12 * ctx.scale {
         for n in 2..=4usize {
-            for (tag, m) in [("nt:singular", singular(ctx, n)), ("nt:nearly-singular", nearly_singular(ctx, n))] {
+            for (tag, m) in [("nt:singular", singular(ctx, n)), ("nt:nearly-singular", nearly_singular(ctx, n)), ("nt:negligible-det", negligible_det(ctx, n))] {
                 match n {
                     2 => { ctx.case("m2_invert", tag, &m, &|| (), &|x| m2(x).invert()); ctx.case("m2_determinant", tag, &m, &|| (), &|x| m2(x).determinant()); }
                     3 => { ctx.case("m3_invert", tag, &m, &|| (), &|x| m3(x).invert()); ctx.case("m3_determinant", tag, &m, &|| (), &|x| m3(x).determinant());
